@@ -682,6 +682,47 @@ def gen():
     L.append("Definition clears_boundary : list attr := [%s]." % "; ".join(
         assigned_attrs(SURF, T.find_def(stree, "SurfaceMesh.clear_boundary_data", SURF), only_none=True)))
 
+    # ---- no decorator (memoisation, wrappers) on any anchored method, only immutable defaults, caches start as None
+    LAZY_INIT = {"PolyLine._Connectivity.__init__": (LIN, ltree, {"_edge_id", "_adjV2V"}),
+                 "SurfaceMesh._Connectivity.__init__": (SURF, stree, {"_half_edges", "_Cn2he", "_adjVF2Cn", "_adjV2Cn", "_adjF2Cn", "_face_id"}),
+                 "SurfaceMesh.__init__": (SURF, stree, {"_boundary_edges", "_interior_edges", "_is_vertex_on_border",
+                                                        "_boundary_vertices", "_interior_vertices"})}
+    PROPS = {"interior_edges", "boundary_edges", "boundary_vertices", "interior_vertices"}
+    for rel, tree, cls in ((LIN, ltree, "PolyLine._Connectivity"), (SURF, stree, "SurfaceMesh._Connectivity"), (SURF, stree, "SurfaceMesh")):
+        cnode = T.find_def(tree, cls, rel)
+        for fnn in cnode.body:
+            if not isinstance(fnn, ast.FunctionDef):
+                continue
+            decos = [T.dotted(d) if not isinstance(d, ast.Call) else T.dotted(d.func) for d in fnn.decorator_list]
+            allowed = ["property"] if (cls == "SurfaceMesh" and fnn.name in PROPS | {"id_vertices", "id_edges", "id_faces", "id_corners"}) else []
+            if decos != allowed:
+                T.fail(rel, fnn, "%s.%s carries decorator(s) %s (the model knows none: a cache or wrapper changes what a call returns)"
+                       % (cls, fnn.name, decos))
+            for dflt in fnn.args.defaults + [d for d in fnn.args.kw_defaults if d is not None]:
+                if not (isinstance(dflt, ast.Constant) and (dflt.value is None or isinstance(dflt.value, (bool, int)))):
+                    T.fail(rel, fnn, "%s.%s has a default argument that is not None / an immutable constant" % (cls, fnn.name))
+    inits = []
+    for qn, (rel, tree, want) in LAZY_INIT.items():
+        fnn = T.find_def(tree, qn, rel)
+        got = set()
+        for n in ast.walk(fnn):
+            tg = None
+            if isinstance(n, ast.Assign) and len(n.targets) == 1:
+                tg, val = n.targets[0], n.value
+            elif isinstance(n, ast.AnnAssign) and n.value is not None:
+                tg, val = n.target, n.value
+            if tg is not None and self_attr(tg) in ATTR:
+                if not is_none(val):
+                    T.fail(rel, n, "%s initialises the lazy attribute %s with something else than None" % (qn, self_attr(tg)))
+                got.add(self_attr(tg))
+        if got != want:
+            T.fail(rel, fnn, "%s initialises %s to None, the model's fresh cache assumes %s" % (qn, sorted(got), sorted(want)))
+        inits += sorted(ATTR[a] for a in got)
+    if not calls_super(T.find_def(stree, "SurfaceMesh._Connectivity.__init__", SURF), "__init__"):
+        T.fail(SURF, stree, "SurfaceMesh._Connectivity.__init__ no longer calls super().__init__")
+    L.append("\n(* attributes the constructors initialise to None (the fresh cache of the model) *)")
+    L.append("Definition inits_none : list attr := [%s]." % "; ".join(inits))
+
     cc = tr_compute_connectivity(SURF, sm_cc)
     L.append("\n(* _compute_connectivity: the half-edge record and its index arithmetic *)")
     L.append("Definition he_idx_prev (iV n : Z) : Z := %s." % cc["idx_prev"])
